@@ -427,7 +427,7 @@ def text_of(rows):
     return "\n".join(rows)
 
 
-def run_threads(nthreads, reqs, tag="thr", timeout=600):
+def run_threads(nthreads, reqs, tag="thr", timeout=600, same_start=False):
     """bobdrive threads mode in a fresh process; returns (call lines, lazy lines)"""
     d = rundir()
     fin = os.path.join(d, "%s-%d.in" % (tag, random.randrange(1 << 30)))
@@ -435,7 +435,7 @@ def run_threads(nthreads, reqs, tag="thr", timeout=600):
     with open(fin, "w") as f:
         for r in reqs:
             f.write(json.dumps(r) + "\n")
-    p = subprocess.run([BOBDRIVE, "threads", str(nthreads), fin, fout], stdout=subprocess.DEVNULL,
+    p = subprocess.run([BOBDRIVE, "threads", str(nthreads), fin, fout] + (["same"] if same_start else []), stdout=subprocess.DEVNULL,
                        stderr=subprocess.PIPE, timeout=timeout)
     if p.returncode != 0:
         raise ToolError("bobdrive threads failed: %s" % p.stderr.decode()[-500:])
